@@ -102,6 +102,16 @@ class Ctx:
     def note(self, msg):
         self.notes.append(norm_text(msg))
 
+    def judge(self, ok, recognised, rule, instance, where, detail, scope, construct=None, excerpt=""):
+        """ok -> discharged; not ok but the construct was recognised -> violation; construct not recognised -> not understood."""
+        if ok:
+            self.ok(rule, instance, where)
+        elif recognised:
+            self.bad(rule, instance, where, detail, scope, construct, excerpt)
+        else:
+            self.unknown(rule, instance, where, detail)
+        return bool(ok)
+
     def unknown(self, rule, instance, where, detail):
         """The rule does not recognise the construct it is about (an idiom it was not written for). This is never a
         violation: the analysis continues, and unless a specific violation is found elsewhere the run ends as
